@@ -20,7 +20,7 @@ func init() {
 			"C07.5 the reply hand-off cannot block or be mixed up: the channel onResponse sends on is a fresh `make(chan, constant ≥ 1)` of that very Query call; " +
 			"C07.6 payload and source stay together: serve hands b[:n] and the address of one ReadFrom to processPacket synchronously (the buffer is reused by the next read).",
 		NotDecided: "injectivity of the uvarint encoding (library), wrap-around of a 64-bit counter, behaviour under concrete interleavings beyond the critical-section facts.",
-		Assume: []string{"encoding/binary.PutUvarint is injective on uint64"},
+		Assume:     []string{"encoding/binary.PutUvarint is injective on uint64"},
 		Rules: []*Rule{
 			{ID: "C07.1", Doc: "dispatcher keys carry both address and transaction id", Floor: 6, Run: c07r1},
 			{ID: "C07.2", Doc: "match, pop, deliver once", Floor: 5, Run: c07r2},
